@@ -214,7 +214,10 @@ func (l *WAL) Open() error {
 			os.Remove(lastSegment)
 			segments = segments[:len(segments)-1]
 		} else {
-			fd, err := os.OpenFile(lastSegment, os.O_RDWR, 0666)
+			// Append mode: the cache loader may truncate a torn tail off this
+			// segment after it has been opened here; writes must then continue at
+			// the new end of the file instead of leaving a hole behind.
+			fd, err := os.OpenFile(lastSegment, os.O_RDWR|os.O_APPEND, 0666)
 			if err != nil {
 				return err
 			}
